@@ -9,7 +9,9 @@ Trace == ndJsonDeserialize(IOEnv.VERIF_TRACE)
 B == 10
 \* W/N in microseconds (rounded down: a smaller requirement)
 PerUs(e) == (e.winMs * 1000 + e.winNs \div 1000) \div e.n
-MaxLate(e, k) == 60000 + (k * PerUs(e)) \div 10
+\* high-rate runs with one hanging probe ("tight"): the limiter spaces the moments Take returns, so the only lateness that can shorten a gap
+\* is the delay between Take returning and the probe starting - bounded by how long the process itself was held up (measured: stallUs)
+MaxLate(e, k) == IF e.tight THEN e.stallUs + 1500 + (k * PerUs(e)) \div 10 ELSE 60000 + (k * PerUs(e)) \div 10
 SpacingOK(e) == LET t == e.times per == PerUs(e) IN
    \A i \in 1..Len(t) : \A j \in (i + 1)..Len(t) : t[j] - t[i] >= (j - i - B) * per - MaxLate(e, j - i)
 ParsedOK(e) == LET x == ParseRate(e.chars) IN x.v \in {"accept", "exact"} /\ x.val = <<e.n, e.winMs, e.winNs>>
